@@ -58,6 +58,9 @@ TEXT = {
     "C13": dict(technique="property-based testing (rapid): metamorphic in the limit L (result(L) in {result(unlimited), ErrBacktrackingStackLimit}, monotone in L) + capacity invariant via the scan-stats hook",
                 text="Deep-nesting ASTs and corpus patterns x inputs up to 60 runes x ~18 limits per case (0..200 dense, 256, 1000, 100000, -1): equality with the unlimited result or the limit error, no panic, allocated backtracking stack <= L for pooled and private interpreter states, monotonicity, and the Regexp answers a probe like a fresh one after every call.",
                 note="Capacity is read through verif-tagged accessors (VerifScanStats, VerifPooledTrackCap).", ref="§6 C13"),
+    "C14": dict(technique="property-based testing (rapid) over generated histories in virtual time (testing/synctest bubble: the harness owns the clock) + a small wall-clock leg",
+                text="Histories of timed long / quick matches, idle gaps around the clock's lifetime, StopTimeoutClock and concurrent deadlines run against the unmodified clock code on a fake clock: timeout fires in [d-2ms, d+4ms], quick matches never time out and return at their work time, the clock goroutine is gone 1 s + 5 ms after the last deadline and after StopTimeoutClock, and restarts on demand. A wall-clock leg runs real catastrophic patterns through the real interpreter with lenient bounds, a scheduling-stall canary and 3-in-a-row confirmation.",
+                note="The virtual leg replaces the interpreter by a registered engine that polls CheckTimeout every 50 virtual microseconds; polling density of the real interpreter is only covered by the wall-clock leg. Liveness is checked as bounded-time safety.", ref="§6 C14"),
 }
 
 PENDING = "check not built yet in this session (work in progress; see DESIGN.md section 6 for the planned generated-input check)"
